@@ -12,6 +12,9 @@ VOCAB = ["", "a b", "\"q\"", "--x=1", "é", "$HOME", "*", "a\nb", "'s'", "\\n"]
 KINDS = [None, "nocmd", "args"]
 
 
+MNAME = {"base": "base", "m1": "v1.2", "m2": "ci.linux"}   # argmap names with a dot (desc["dotted"])
+
+
 def file_args(t, m, c, extra):
     return ["%s-%s-%s" % (t, m, c)] + list(extra)
 
@@ -66,13 +69,16 @@ def build(desc, s):
             t = "shared"   # the files are the same for every target, and so are the expected arguments
         for m in ("base", "m1", "m2"):
             kind = desc["files"][0 if shared else ti][m]
+            if desc.get("dotted") and m != "base":
+                # decoys named after the part before the dot (v1.json next to v1.2.json, ci.json next to ci.linux.json)
+                r.write(os.path.join(adir, MNAME[m].split(".")[0] + ".json"), json.dumps({c: ["decoy-" + m] for c in cmds}))
             if kind is None:
                 continue
             if kind == "nocmd":
                 body = {"other": ["zzz"]}
             else:
                 body = {c: file_args(t, m, c, desc["vocab"].get(m, [])) for c in cmds}
-            r.write(os.path.join(adir, m + ".json"), json.dumps(body))
+            r.write(os.path.join(adir, (MNAME[m] if desc.get("dotted") else m) + ".json"), json.dumps(body))
         fi = 0 if shared else ti
         for c in cmds:
             exp = []
@@ -112,7 +118,7 @@ def task(desc):
         elif desc.get("select") == "explicit-twice":
             args += ["-t"] + names + names[:1]   # the first target named twice
         if desc["argmaps_opt"]:
-            args += ["-m"] + desc["argmaps_opt"]
+            args += ["-m"] + [MNAME.get(m, m) if desc.get("dotted") else m for m in desc["argmaps_opt"]]
         if desc["no_base"]:
             args += ["--no-base-argmaps"]
         ctx = desc.get("context") or []
@@ -231,6 +237,12 @@ def scenarios(tier):
             files = [{"base": "args", "m1": "args", "m2": None}, {"base": "args", "m1": "nocmd", "m2": "args"}]
             out.append({"targets": 2, "commands": ["build", "test"], "files": files, "argmaps_opt": ["m1", "m2"], "no_base": False,
                         "args": None, "argdir": argdir, "cmdsrc": cmdsrc, "vocab": plain, "foreign": True})
+    # (2j) argmap names that contain a dot (v1.2, ci.linux), with decoy files named after the part before the dot
+    for argdir in ("default", "custom"):
+        for o in (["m1"], ["m2", "m1"], ["m1", "missing"]):
+            files = [{"base": "args", "m1": "args", "m2": "args"}, {"base": None, "m1": "args", "m2": None}]
+            out.append({"targets": 2, "commands": ["build"], "files": files, "argmaps_opt": o, "no_base": False,
+                        "args": None, "argdir": argdir, "cmdsrc": "default", "vocab": plain, "dotted": True})
     # (2i) commands reached through -s <sequence> (alone, or followed by -c): same argv as with -c
     for via in ("sequence", "sequence+c"):
         for cmdsrc in ("default", "defpath"):
